@@ -371,7 +371,9 @@ def one_run(tape: Tape, stub: bool) -> dict:
             req = CAL.requested_times(case["cfg"]["observables"], case["cfg"]["default_times"])
             for tag, times in req.items():
                 rec = [x[0] for x in out.results["tags"].get(tag, [])]
-                m = CAL.match_times(rec, times)
+                from ._cal import match_times_clustered
+
+                m = match_times_clustered(rec, times)
                 if m is not None:
                     V.append({"clause": "C18.I6-observable-times", "site": tag, "msg": f"{tag}: {m} :: {desc}"})
         return _pack(V, desc, probes, world, case, stats, stub)
